@@ -71,6 +71,18 @@ func (s *TieredCompactionStrategy) SelectCompaction() (*CompactionTask, error) {
 	return nil, nil
 }
 
+// oldestFirst orders files by age. The storage manager numbers its files from 1
+// again after every open, so the creation time decides and the file number only
+// breaks ties
+func oldestFirst(files []*SSTableInfo) func(i, j int) bool {
+	return func(i, j int) bool {
+		if files[i].Timestamp != files[j].Timestamp {
+			return files[i].Timestamp < files[j].Timestamp
+		}
+		return files[i].Sequence < files[j].Sequence
+	}
+}
+
 // selectL0Compaction selects files from L0 for compaction
 func (s *TieredCompactionStrategy) selectL0Compaction() (*CompactionTask, error) {
 	// Require at least some files in L0
@@ -81,9 +93,7 @@ func (s *TieredCompactionStrategy) selectL0Compaction() (*CompactionTask, error)
 	// Sort L0 files by sequence number to prioritize older files
 	files := make([]*SSTableInfo, len(s.levels[0]))
 	copy(files, s.levels[0])
-	sort.Slice(files, func(i, j int) bool {
-		return files[i].Sequence < files[j].Sequence
-	})
+	sort.Slice(files, oldestFirst(files))
 
 	// Take up to maxCompactFiles from L0
 	maxCompactFiles := s.cfg.MaxMemTables
@@ -136,9 +146,7 @@ func (s *TieredCompactionStrategy) selectPromotionCompaction(level int) (*Compac
 	// Sort files by sequence number
 	files := make([]*SSTableInfo, len(s.levels[level]))
 	copy(files, s.levels[level])
-	sort.Slice(files, func(i, j int) bool {
-		return files[i].Sequence < files[j].Sequence
-	})
+	sort.Slice(files, oldestFirst(files))
 
 	// Select the oldest file
 	file := files[0]
@@ -161,9 +169,7 @@ func (s *TieredCompactionStrategy) selectOverlappingCompaction(level int) (*Comp
 	// Sort files by sequence number to start with oldest
 	files := make([]*SSTableInfo, len(s.levels[level]))
 	copy(files, s.levels[level])
-	sort.Slice(files, func(i, j int) bool {
-		return files[i].Sequence < files[j].Sequence
-	})
+	sort.Slice(files, oldestFirst(files))
 
 	// Select an initial file from this level
 	file := files[0]
